@@ -228,13 +228,12 @@ Example ex_names_outputs :
    [OErr LLimitsExceeded]; [OReg (MLost (KW nameA)); OReg (MReply 1)]; [OReg (MAcquired (KW nameB)); OReg (MReply 1)]].
 Proof. vm_compute. reflexivity. Qed.
 
-(* Observation (recorded as finding F4b under C04): the name limit is tested before the queue is
-   looked at, so at the limit even a request for a name the connection already owns - which would
-   not add anything - is answered LimitsExceeded.  No clause of C13 is violated: the count stays
-   within the limit and the refusal changes nothing. *)
-Example ex_refused_without_growth :
-  nth 4 (snd (lrun L2 linit [Connect 0; Auth 0; Hello 0; RequestName 0 nameA 0; RequestName 0 nameA 0])) [] = [(0, OErr LLimitsExceeded)].
-Proof. vm_compute. reflexivity. Qed.
+(* at the limit a request for a name the connection already holds is still granted (it adds nothing;
+   /repo 54eb1c0, formerly finding F4b of C04): ALREADY_OWNER, whereas a further name is refused *)
+Example ex_rerequest_at_limit_granted :
+  nth 4 (snd (lrun L2 linit [Connect 0; Auth 0; Hello 0; RequestName 0 nameA 0; RequestName 0 nameA 0; RequestName 0 nameB 0])) [] = [(0, OReg (MReply 4))] /\
+  nth 5 (snd (lrun L2 linit [Connect 0; Auth 0; Hello 0; RequestName 0 nameA 0; RequestName 0 nameA 0; RequestName 0 nameB 0])) [] = [(0, OErr LLimitsExceeded)].
+Proof. vm_compute. split; reflexivity. Qed.
 
 (* accept() pauses at max_incomplete_connections = 2 and resumes when a connection says Hello;
    calls: two may be outstanding, the third is refused, an answer frees a slot, the callee's
